@@ -225,7 +225,11 @@ class Gen:
         kinds = list(p["constraints"])
         if kinds:
             for _ in range(_ri(rng, p["n_constraints"])):
-                c = self.gen_constraint(rng.choice(kinds))
+                k = rng.choice(kinds)
+                if k == "GroupPrecedence":
+                    spec["constraints"].extend(self.gen_group_precedence())
+                    continue
+                c = self.gen_constraint(k)
                 if c is not None:
                     if rng.random() < p["p_optional_constraint"] and c["kind"] not in ("ForceApplyNOptionalConstraints",):
                         c["optional"] = True
@@ -440,6 +444,34 @@ class Gen:
         else:
             raise ValueError(kind)
         return c
+
+    def gen_group_precedence(self):
+        """two disjoint task groups and a precedence between the groups themselves"""
+        rng = self.rng
+        ids = self._tasks()
+        if len(ids) < 2 or any(c.get("kind") == "TaskPrecedence" and c.get("groups") for c in self.spec["constraints"]):
+            return []
+        rng.shuffle(ids)
+        k = rng.randint(1, len(ids) - 1)
+        ga, gb = ids[:k][:2], ids[k:][:2]
+        hz = est_horizon(self.spec)
+        out = []
+        for members in (ga, gb):
+            g = {"id": self.cid("g"), "kind": rng.choice(["UnorderedTaskGroup", "UnorderedTaskGroup", "OrderedTaskGroup"]), "tasks": members}
+            if len(members) < 2:
+                g["kind"] = "UnorderedTaskGroup"
+            if g["kind"] == "OrderedTaskGroup":
+                g["mode"] = rng.choice(["lax", "strict", "tight"])
+            r = rng.random()
+            if r < 0.3:
+                a = rng.randint(0, max(0, hz // 2))
+                g["interval"] = [a, rng.randint(a + 1, hz + 1)]
+            elif r < 0.6:
+                g["length"] = rng.randint(1, hz)
+            out.append(g)
+        out.append({"id": self.cid(), "kind": "TaskPrecedence", "before": out[0]["id"], "after": out[1]["id"], "offset": rng.choice([0, 0, 1, 2]),
+                    "mode": rng.choice(["lax", "lax", "strict", "tight"]), "groups": True})
+        return out
 
     def gen_bool_expr(self):
         rng = self.rng
